@@ -9,14 +9,58 @@
 //!   S|<P|L>|eps4|x0,y0,...      simplify_polygon / simplify_polyline with epsilon = eps4/4
 //!   R|x0,y0,...                 min_area_rect
 //!
+//! Every line may end with a field `|@k,ox,oy` (SCALED family): the coordinates handed to the
+//! implementation are (x+ox)*2^k, (y+oy)*2^k, epsilon is (eps4/4)*2^k.  These are exactly
+//! representable, and so are all coordinate differences and their pairwise products, so the
+//! f32 orientation tests stay exact at every scale; the results are mapped back (divided by 2^k)
+//! and the exact oracle runs on the integer pre-images x+ox, y+oy.
+//!
 //! Floats are never printed as decimals: distances and sort keys go out as order-preserving
 //! integer encodings of their f32 bit patterns, rectangle parameters as exact dyadics (m, e).
 use rten_imageproc::{convex_hull, min_area_rect, simplify_polygon, simplify_polyline, Line, PointF, Vec2};
 use std::io::{BufRead, Write};
 use vh_imageproc::*;
 
-fn pts_of(a: &[i64]) -> Vec<PointF> {
-    a.chunks(2).map(|c| PointF::from_yx(c[1] as f32, c[0] as f32)).collect()
+#[derive(Clone, Copy)]
+struct Scale {
+    k: i32,
+    ox: i64,
+    oy: i64,
+}
+
+impl Scale {
+    fn f(&self) -> f32 {
+        2f32.powi(self.k)
+    }
+    fn tag(&self) -> String {
+        if self.k == 0 && self.ox == 0 && self.oy == 0 {
+            String::new()
+        } else {
+            format!("-s{}{}", self.k, if self.ox != 0 || self.oy != 0 { if self.ox.abs() > 1000 || self.oy.abs() > 1000 { "-faroff" } else { "-off" } } else { "" })
+        }
+    }
+}
+
+/// Split a trailing `@k,ox,oy` field off the input line's fields.
+fn split_scale<'a>(f: &mut Vec<&'a str>) -> Scale {
+    if let Some(last) = f.last() {
+        if let Some(rest) = last.strip_prefix('@') {
+            let v = parse_ints(rest);
+            f.pop();
+            return Scale { k: v[0] as i32, ox: v[1], oy: v[2] };
+        }
+    }
+    Scale { k: 0, ox: 0, oy: 0 }
+}
+
+/// Integer pre-images (x+ox, y+oy).
+fn pre_images(a: &[i64], sc: Scale) -> Vec<(i64, i64)> {
+    a.chunks(2).map(|c| (c[0] + sc.ox, c[1] + sc.oy)).collect()
+}
+
+fn pts_of(a: &[i64], sc: Scale) -> Vec<PointF> {
+    // (c + o) is an integer below 2^24, the multiplication by a power of two is exact
+    pre_images(a, sc).iter().map(|&(x, y)| PointF::from_yx(y as f32 * sc.f(), x as f32 * sc.f())).collect()
 }
 
 fn coq_pts_xy(ps: &[(i64, i64)]) -> String {
@@ -36,7 +80,7 @@ fn key(v: f32) -> i64 {
 }
 
 /// Exact dyadic (m, e) with value m * 2^e; non-finite values get e = 1000000.
-fn dyadic(v: f32) -> String {
+fn dyadic(v: f32, shift: i32) -> String {
     if !v.is_finite() {
         return "(0, 1000000)".to_string();
     }
@@ -45,16 +89,18 @@ fn dyadic(v: f32) -> String {
     let exp = ((b >> 23) & 0xff) as i64;
     let man = (b & 0x7f_ffff) as i64;
     let (m, e) = if exp == 0 { (man, -149) } else { (man | 0x80_0000, exp - 150) };
-    format!("({}, {})", z(sign * m), z(e))
+    format!("({}, {})", z(sign * m), z(e - shift as i64))
 }
 
-fn out_points(v: &[PointF]) -> Option<Vec<(i64, i64)>> {
-    v.iter().map(|p| Some((as_int(p.x)?, as_int(p.y)?))).collect()
+/// Map output points back to the integer pre-images (exact division by 2^k); None if some
+/// output coordinate is not one of those integers.
+fn out_points(v: &[PointF], sc: Scale) -> Option<Vec<(i64, i64)>> {
+    v.iter().map(|p| Some((as_int(p.x / sc.f())?, as_int(p.y / sc.f())?))).collect()
 }
 
-fn exec_hull(line: &str, a: &[i64]) -> String {
-    let pts = pts_of(a);
-    let xy: Vec<(i64, i64)> = a.chunks(2).map(|c| (c[0], c[1])).collect();
+fn exec_hull(line: &str, a: &[i64], sc: Scale) -> String {
+    let pts = pts_of(a, sc);
+    let xy = pre_images(a, sc);
     // sort keys exactly as convex_hull computes them (public Vec2/PointF methods)
     let min_point = pts.iter().min_by(|a, b| {
         if a.y != b.y { (-a.y).total_cmp(&-b.y) } else { a.x.total_cmp(&b.x) }
@@ -67,7 +113,7 @@ fn exec_hull(line: &str, a: &[i64]) -> String {
     }).collect();
     let p2 = pts.clone();
     let r = no_panic(move || convex_hull(&p2));
-    let imp = match r.as_ref().and_then(|h| out_points(h)) {
+    let imp = match r.as_ref().and_then(|h| out_points(h, sc)) {
         Some(h) => format!("Some {}", coq_pts_xy(&h)),
         None => "None".to_string(),
     };
@@ -81,7 +127,7 @@ fn exec_hull(line: &str, a: &[i64]) -> String {
     let tag = if xy.is_empty() {
         "trivial-hull-empty".to_string()
     } else {
-        format!("hull-n{}{}{}-h{}", match distinct.len() { 1 => "1", 2 => "2", 3..=5 => "3-5", _ => "6+" },
+        format!("hull{}-n{}{}{}-h{}", sc.tag(), match distinct.len() { 1 => "1", 2 => "2", 3..=5 => "3-5", _ => "6+" },
             if distinct.len() < xy.len() { "-dups" } else { "" },
             if collinear { "-collinear" } else { "" },
             match r.as_ref().map(|h| h.len()) { None => "panic".to_string(), Some(k) if k <= 2 => k.to_string(), Some(k) if k <= 4 => "3-4".to_string(), Some(_) => "5+".to_string() })
@@ -89,10 +135,10 @@ fn exec_hull(line: &str, a: &[i64]) -> String {
     format!("{}\t{}\tCHull {} [{}] ({})", tag, line, coq_pts_xy(&xy), keys.join(";"), imp)
 }
 
-fn exec_simp(line: &str, closed: bool, eps4: i64, a: &[i64]) -> String {
-    let pts = pts_of(a);
-    let xy: Vec<(i64, i64)> = a.chunks(2).map(|c| (c[0], c[1])).collect();
-    let eps = eps4 as f32 / 4.0;
+fn exec_simp(line: &str, closed: bool, eps4: i64, a: &[i64], sc: Scale) -> String {
+    let pts = pts_of(a, sc);
+    let xy = pre_images(a, sc);
+    let eps = eps4 as f32 / 4.0 * sc.f();
     // distance table over point ids; the closing point of a polygon is point 0 again
     let mut ids: Vec<usize> = (0..pts.len()).collect();
     if closed && !pts.is_empty() {
@@ -114,7 +160,7 @@ fn exec_simp(line: &str, closed: bool, eps4: i64, a: &[i64]) -> String {
     }
     let p2 = pts.clone();
     let r = no_panic(move || if closed { simplify_polygon(&p2, eps) } else { simplify_polyline(&p2, eps) });
-    let imp = match r.as_ref().and_then(|h| out_points(h)) {
+    let imp = match r.as_ref().and_then(|h| out_points(h, sc)) {
         Some(h) => format!("Some {}", coq_pts_xy(&h)),
         None => "None".to_string(),
     };
@@ -122,16 +168,16 @@ fn exec_simp(line: &str, closed: bool, eps4: i64, a: &[i64]) -> String {
         format!("trivial-simp-empty-{}", if closed { "polygon" } else { "polyline" })
     } else {
         let kept = r.as_ref().map(|h| h.len()).unwrap_or(0);
-        format!("simp-{}-n{}-{}", if closed { "polygon" } else { "polyline" },
+        format!("simp{}-{}-n{}-{}", sc.tag(), if closed { "polygon" } else { "polyline" },
             match xy.len() { 1 => "1", 2 => "2", 3..=5 => "3-5", _ => "6+" },
             if r.is_none() { "panic" } else if kept == xy.len() { "keptall" } else if kept <= 2 { "kept<=2" } else { "keptsome" })
     };
     format!("{}\t{}\tCSimp {} {} {} {} [{}] ({})", tag, line, closed, coq_pts_xy(&xy), z(eps4), z(key(eps)), tbl.join(";"), imp)
 }
 
-fn exec_rect(line: &str, a: &[i64]) -> String {
-    let pts = pts_of(a);
-    let xy: Vec<(i64, i64)> = a.chunks(2).map(|c| (c[0], c[1])).collect();
+fn exec_rect(line: &str, a: &[i64], sc: Scale) -> String {
+    let pts = pts_of(a, sc);
+    let xy = pre_images(a, sc);
     let p2 = pts.clone();
     let r = no_panic(move || min_area_rect(&p2));
     let imp = match &r {
@@ -139,24 +185,26 @@ fn exec_rect(line: &str, a: &[i64]) -> String {
         Some(None) => "(Some None)".to_string(),
         Some(Some(rr)) => format!(
             "(Some (Some {{| rr_cx := {}; rr_cy := {}; rr_ux := {}; rr_uy := {}; rr_w := {}; rr_h := {} |}}))",
-            dyadic(rr.center().x), dyadic(rr.center().y), dyadic(rr.up_axis().x), dyadic(rr.up_axis().y),
-            dyadic(rr.width()), dyadic(rr.height())),
+            // centre and extents in pre-image units (exact: exponent shifted by -k); the up axis is a unit vector
+            dyadic(rr.center().x, sc.k), dyadic(rr.center().y, sc.k), dyadic(rr.up_axis().x, 0), dyadic(rr.up_axis().y, 0),
+            dyadic(rr.width(), sc.k), dyadic(rr.height(), sc.k)),
     };
     let tag = if xy.is_empty() {
         "trivial-rect-empty".to_string()
     } else {
         let rot = match &r { Some(Some(rr)) => if rr.up_axis().x != 0.0 && rr.up_axis().y != 0.0 { "rotated" } else { "axis" }, _ => "none" };
-        format!("rect-n{}-{}", match xy.len() { 1 => "1", 2 => "2", 3..=5 => "3-5", _ => "6+" }, rot)
+        format!("rect{}-n{}-{}", sc.tag(), match xy.len() { 1 => "1", 2 => "2", 3..=5 => "3-5", _ => "6+" }, rot)
     };
     format!("{}\t{}\tCRect {} {}", tag, line, coq_pts_xy(&xy), imp)
 }
 
 fn exec_line(line: &str) -> String {
-    let f: Vec<&str> = line.split('|').collect();
+    let mut f: Vec<&str> = line.split('|').collect();
+    let sc = split_scale(&mut f);
     match f[0] {
-        "H" => exec_hull(line, &parse_ints(f[1])),
-        "S" => exec_simp(line, f[1] == "P", f[2].parse().unwrap(), &parse_ints(f[3])),
-        "R" => exec_rect(line, &parse_ints(f[1])),
+        "H" => exec_hull(line, &parse_ints(f[1]), sc),
+        "S" => exec_simp(line, f[1] == "P", f[2].parse().unwrap(), &parse_ints(f[3]), sc),
+        "R" => exec_rect(line, &parse_ints(f[1]), sc),
         _ => panic!("bad line {}", line),
     }
 }
@@ -218,20 +266,54 @@ fn generate(seed: u64, n: usize, tier: &str, out: &mut impl Write) {
             a.push(p.0);
             a.push(p.1);
         }
-        writeln!(out, "H|{}", join(&a)).unwrap();
+        // a quarter of the lattice sets at tiny extent, a quarter tiny and far from the origin
+        match code % 4 {
+            1 => writeln!(out, "H|{}|@-14,0,0", join(&a)).unwrap(),
+            3 => writeln!(out, "H|{}|@-18,1048576,-4096", join(&a)).unwrap(),
+            _ => writeln!(out, "H|{}", join(&a)).unwrap(),
+        }
         if code % 7 == 0 {
             writeln!(out, "S|{}|{}|{}", if code % 2 == 0 { "P" } else { "L" }, code % 5, join(&a)).unwrap();
         }
     }
     for _ in 0..n {
         let a = point_set(&mut rng);
+        // SCALED families: half of the cases are multiplied by 2^k (tiny and large extents) and
+        // translated by a dyadic offset; everything stays exactly representable
+        let k: i64 = if rng.chance(1, 2) { 0 } else { rng.pick(&[-18i64, -14, -14, -10, -4, 8, 14]) };
+        let small_off = |rng: &mut SplitMix64| if rng.chance(1, 2) { (0, 0) } else { (rng.range(-64, 64), rng.range(-64, 64)) };
         match rng.below(10) {
-            0..=3 => writeln!(out, "H|{}", join(&a)).unwrap(),
+            0..=3 => {
+                // only coordinate differences enter convex_hull: far offsets stay exact too
+                let (ox, oy) = match rng.below(4) {
+                    0 => (0, 0),
+                    1 => (rng.range(-64, 64), rng.range(-64, 64)),
+                    _ => (rng.pick(&[1i64 << 20, -(1i64 << 20), 4096, 999_983]), rng.pick(&[1i64 << 20, -(1i64 << 19), -4096, 65_537])),
+                };
+                if k == 0 && ox == 0 && oy == 0 {
+                    writeln!(out, "H|{}", join(&a)).unwrap()
+                } else {
+                    writeln!(out, "H|{}|@{},{},{}", join(&a), k, ox, oy).unwrap()
+                }
+            }
             4..=7 => {
                 let eps4 = match rng.below(6) { 0 => 0, 1 => 1, 2 => 2, 3 => 4, _ => rng.range(0, 40) };
-                writeln!(out, "S|{}|{}|{}", if rng.chance(1, 2) { "P" } else { "L" }, eps4, join(&a)).unwrap()
+                let (ox, oy) = small_off(&mut rng);
+                let kind = if rng.chance(1, 2) { "P" } else { "L" };
+                if k == 0 && ox == 0 && oy == 0 {
+                    writeln!(out, "S|{}|{}|{}", kind, eps4, join(&a)).unwrap()
+                } else {
+                    writeln!(out, "S|{}|{}|{}|@{},{},{}", kind, eps4, join(&a), k, ox, oy).unwrap()
+                }
             }
-            _ => writeln!(out, "R|{}", join(&a)).unwrap(),
+            _ => {
+                let (ox, oy) = small_off(&mut rng);
+                if k == 0 && ox == 0 && oy == 0 {
+                    writeln!(out, "R|{}", join(&a)).unwrap()
+                } else {
+                    writeln!(out, "R|{}|@{},{},{}", join(&a), k, ox, oy).unwrap()
+                }
+            }
         }
     }
 }
